@@ -16,7 +16,7 @@ from ..common import Report, stream, digest, order_to_decisions, big
 from ..engine import Engine, Monitor, Scripted
 from ..edits import gen_edit, apply_edit
 from ..isolation import pristine_state
-from ..terms import World, snap
+from ..terms import World, snap, rule_projection
 
 PID = "C06"
 
@@ -185,18 +185,28 @@ def on_boundary(eng, c, k, op, out):
     _, si, di = op
     schema = world.get("schemas", si)
     supplied = term["schemas"][si][1]
-    ids = st["rule_ids"]
-    # (i) stable shortest-first order of what was supplied
-    try:
-        actual = [ids.get(id(r), -1) for r in schema.rules]
-    except Exception:
-        actual = None
+    # (i) stable shortest-first order of what was supplied.  Rules are
+    # recognised by what they are (path, condition, cast, doc), not by object
+    # identity: a schema may well keep copies of the caller's Rule objects.
+    projs = st["rule_proj"]
     lens = st["path_len"]
     model = sorted(supplied, key=lambda i: lens[i])
+    try:
+        actual = [rule_projection(r) for r in schema.rules]
+    except Exception:
+        actual = None
+    want = [projs[i] for i in model]
     st["checked_order"] += 1
-    if actual != model:
-        kind = "not_a_permutation" if actual is None or sorted(actual) != sorted(model) else ("not_shortest_first" if [lens[i] for i in actual] != [lens[i] for i in model] else "ties_not_in_given_order")
-        vio.append(dict(oracle="rule_order", locus=kind, detail={"schema": si, "supplied": supplied, "expected": model, "actual": actual}))
+    if actual != want:
+        if actual is None or sorted(actual, key=repr) != sorted(want, key=repr):
+            kind = "not_a_permutation"
+        else:
+            try:
+                alens = [len(r.path) for r in schema.rules]
+            except Exception:
+                alens = None
+            kind = "not_shortest_first" if alens != sorted(alens or [1, 0]) else "ties_not_in_given_order"
+        vio.append(dict(oracle="rule_order", locus=kind, detail={"schema": si, "supplied": supplied, "expected_order": model}))
         return vio
     refs = [reference(world, ri, di) for ri in model]
     if any(rf[0] == "raise" for rf in refs):
@@ -237,13 +247,12 @@ def on_boundary(eng, c, k, op, out):
             vio.append(dict(oracle="aggregate_mismatch", locus=name, detail={"op": op, "expected": want, "got": repr(got)}))
             return vio
     if model:
+        # the statement does not mention the fraction: diagnostic only
         try:
-            frac = vd.frac_rules_tested
-        except Exception as e:
-            frac = ("raise", type(e).__name__)
-        if frac != exp_tested / len(model):
-            vio.append(dict(oracle="aggregate_mismatch", locus="frac_rules_tested", detail={"op": op, "expected": exp_tested / len(model), "got": repr(frac)}))
-            return vio
+            if vd.frac_rules_tested != exp_tested / len(model):
+                st["diag_frac_differs"] += 1
+        except Exception:
+            st["diag_frac_differs"] += 1
     # (iv) the report
     try:
         report = vd.get_failures_string()
@@ -253,34 +262,25 @@ def on_boundary(eng, c, k, op, out):
     if not isinstance(report, str):
         vio.append(dict(oracle="report_not_str", locus="valid" if exp_valid else "invalid", detail={"op": op, "got": repr(report)[:200]}))
         return vio
-    # asking for the report again gives the same text
+    # "always a string, naming every failing path": also when asked again
     try:
         report2 = vd.get_failures_string()
     except Exception as e:
         report2 = ("raise", type(e).__name__)
-    if report2 != report:
-        vio.append(dict(oracle="report_not_repeatable", locus="valid" if exp_valid else "invalid", detail={"op": op, "first": report[:300], "second": repr(report2)[:300]}))
+    if not isinstance(report2, str):
+        vio.append(dict(oracle="report_not_str", locus="second_call", detail={"op": op, "got": repr(report2)[:200]}))
         return vio
     pairs = []
     for ri, rt in zip(model, vd.rule_tests):
-        # the per-rule report, too, is a str naming the rule's failing paths
-        try:
-            rrep = rt.get_failures_string()
-        except Exception as e:
-            rrep = ("raise", type(e).__name__)
-        if not isinstance(rrep, str):
-            vio.append(dict(oracle="report_not_str", locus="rule_test", detail={"op": op, "rule": ri, "got": repr(rrep)[:200]}))
-            return vio
-        for f in rt.failures:
-            if not names_path(rrep, f.path):
-                vio.append(dict(oracle="report_omits_path", locus="rule_test", detail={"op": op, "rule": ri, "path": repr(f.path)}))
-                return vio
         for f in rt.failures:
             pairs.append((ri, snap(f.path)))
-            if not names_path(report, f.path):
-                vio.append(dict(oracle="report_omits_path", locus="failing_path", detail={"op": op, "path": repr(f.path), "report": report[:600]}))
-                return vio
-    st["history"].append((si, di, len(st["edits"].get(di, ())), (exp_valid, exp_fail, exp_tested, tuple(sorted(pairs, key=repr)))))
+            for which, text in (("first_call", report), ("second_call", report2)):
+                if not names_path(text, f.path):
+                    vio.append(dict(oracle="report_omits_path", locus=which, detail={"op": op, "path": repr(f.path), "report": text[:600]}))
+                    return vio
+    agg = (exp_valid, exp_fail, exp_tested, tuple(sorted(pairs, key=repr)))
+    st["history"].append((si, di, len(st["edits"].get(di, ())), agg))
+    st["kept"].append((vd, op, agg))  # read again at the end of the run
     return vio
 
 
@@ -291,13 +291,12 @@ def run(case):
         world.get("schemas", i)
     for i in range(len(term["rules"])):
         world.get("rules", i)
-    mon = Monitor()
-    for kind in ("docs", "rules", "schemas"):
-        for i in range(len(term[kind])):
-            mon.register(f"{kind}[{i}]", world.get(kind, i))
+    mon = Monitor()  # nothing registered: whether inputs stay unchanged is C08's statement, not C06's
     world.state = {
-        "rule_ids": {id(world.get("rules", i)): i for i in range(len(term["rules"]))},
+        "rule_proj": [rule_projection(world.get("rules", i)) for i in range(len(term["rules"]))],
         "path_len": [len(world.get("rules", i).path) for i in range(len(term["rules"]))],
+        "kept": [],
+        "diag_frac_differs": 0,
         "ref": {},
         "edits": {},
         "last": None,
@@ -311,7 +310,28 @@ def run(case):
     eng = Engine(world, case["programs"], exec_op, mon, Scripted(case["decisions"]), mode="op", on_boundary=on_boundary)
     eng.run()
     st = world.state
-    # (iii) permutation / order invariance over the recorded history
+    # a result must keep saying what it said: verdict, counts and failing pairs
+    # of every ValidatedData handed out are read again after the whole history
+    reread = 0
+    if not eng.violations:
+        for vd, op, agg in st["kept"]:
+            try:
+                pairs = []
+                model = sorted(term["schemas"][op[1]][1], key=lambda i: st["path_len"][i])
+                for ri, rt in zip(model, vd.rule_tests):
+                    for f in rt.failures:
+                        pairs.append((ri, snap(f.path)))
+                now = (vd.is_valid, vd.num_failures, vd.num_rules_tested, tuple(sorted(pairs, key=repr)))
+            except Exception as e:
+                now = ("raise", type(e).__name__)
+            reread += 1
+            if now != agg:
+                field = "raise" if now[0] == "raise" else next(n for n, x, y in zip(("is_valid", "num_failures", "num_rules_tested", "failing_pairs"), agg, now) if x != y)
+                eng.add_violation("result_changed_after_later_validations", field, {"op": op, "at_return": repr(agg)[:300], "at_end_of_run": repr(now)[:300]})
+                break
+    # (iii) permutation / order invariance over the recorded history (implied by
+    # the conservation checks above, which tie every validation to references
+    # that do not depend on the order; kept as an explicit cross-check)
     by_doc = {}
     perms_seen = {}
     for si, di, epoch, agg in st["history"]:
@@ -346,6 +366,8 @@ def run(case):
         "order_checks": st["checked_order"],
         "conservation_checks": st["checked_conservation"],
         "report_checks": st["checked_report"],
+        "results_reread_at_end": reread,
+        "diagnostic_frac_rules_tested_differs": st["diag_frac_differs"],
         "distinct_permutations_in_run": n_perm,
         "empty_schemas": 1 if n_rules == 0 else 0,
         "set:histories": {key},
@@ -371,7 +393,7 @@ def evidence_info():
         "components": {
             "real": ["all of valida from the working tree", "CPython 3.12"],
             "simulated": ["the permutation in which the rules are supplied and the order in which validations run over the shared Rule objects"],
-            "shim": ["harness-installed __setattr__ write tracer"],
+            "shim": [],
             "stubbed": [],
             "reference_model": ["conjunction / sum / count over per-rule verdicts from fresh single rules; stable sort by path length"],
         },
